@@ -240,6 +240,7 @@ C20_EXCLUDE = C03_EXCLUDE + ["eqrel", "btree_delete", "<="]
 
 def build_profcount():
     src = os.path.join(VERIF, "psim", "profcount.cpp")
+    os.makedirs(os.path.dirname(PROFCOUNT), exist_ok=True)
     r = subprocess.run(["g++", "-std=c++17", "-O1", "-I", os.path.join(REPO, "src", "include"), src, "-o", PROFCOUNT, "-lpthread"], stdout=subprocess.PIPE,
                        stderr=subprocess.PIPE)
     if r.returncode != 0:
@@ -270,5 +271,8 @@ def oracle_c20(w, ref, res, case):
         if rel not in counts:
             f.append(("profile-relation-missing:" + rel, "output relation %s is not reported in the profile" % rel))
         elif counts[rel] != len(lines):
-            f.append(("profile-count:" + rel, "profile reports %d tuples for %s, the relation holds %d" % (counts[rel], rel, len(lines))))
+            # own class for the shape recorded in known_findings.json: a relation that is loaded from facts and also has a
+            # non-recursive rule (the profile then reports only the tuples produced by the rule)
+            cls = "profile-count-input-derived:" if rel in w.meta.get("input_derived_nonrec", []) and counts[rel] < len(lines) else "profile-count:"
+            f.append((cls + rel, "profile reports %d tuples for %s, the relation holds %d" % (counts[rel], rel, len(lines))))
     return f
